@@ -108,6 +108,38 @@ theorem fragment_chain (Γ : Ctx) :
 example : ctxOK (featTop false) Γw6 = true := ctxOK_top featF2 Γw6 (by decide)
 example : ctxOK featF10 Γ9 = true := (fragment_chain Γ9).2.2.2.2.2.2 (by decide)
 
+/-- **C01, F10 subsumes every fragment.** In a universe that declares no attribute under the name
+`xsi:type` (the one thing the `inherit` flag adds to `ctxOK`), an instance lies in some fragment iff it
+lies in F10: the feature-indexed part of `bind_generate_partial` is `bind_generate_F10`. -/
+theorem fragments_collapse_F10 (e : BEnv) (Γ : Ctx) (c : ClassId) (v : Val) (hD : noTypeAttr Γ = true) :
+    (∃ ft : Feat, ctxOK ft Γ = true ∧ valOKI ft.inherit e Γ c v = true) ↔
+    (ctxOK featF10 Γ = true ∧ valOKI true e Γ c v = true) := by
+  constructor
+  · rintro ⟨ft, hΓ, hv⟩
+    refine ⟨ctxOK_mono_inh ⟨fun _ => rfl, fun _ => rfl, fun _ => rfl, fun _ => rfl, fun _ => rfl, fun _ => rfl,
+      fun _ => rfl, fun _ => rfl, fun _ => rfl⟩ Γ hD hΓ, ?_⟩
+    cases hi : ft.inherit with
+    | true => rw [hi] at hv; exact hv
+    | false => rw [hi] at hv; exact valOKI_mono e Γ c v hv
+  · rintro ⟨hΓ, hv⟩
+    exact ⟨featF10, hΓ, hv⟩
+
+/-- the missing link of the chain: F6 ⊆ F7, for universes and for instances -/
+theorem fragment_chain_inherit (e : BEnv) (Γ : Ctx) (c : ClassId) (v : Val) (hD : noTypeAttr Γ = true)
+    (hΓ : ctxOK featF6 Γ = true) (hv : valOK e Γ c v = true) :
+    ctxOK featF7 Γ = true ∧ valOKI true e Γ c v = true :=
+  ⟨ctxOK_mono_inh (ft := featF6) (ft' := featF7) ⟨fun h => h, fun h => h, fun h => h, fun h => h, fun h => h,
+    fun h => h, fun h => h, fun h => h, fun h => h⟩ Γ hD hΓ, valOKI_mono e Γ c v hv⟩
+
+/-- the F6 example universe and instance, seen as an instance of F10 -/
+example : noTypeAttr Γ6 = true ∧ ctxOK featF6 Γ6 = true ∧ valOK e0 Γ6 (s "Root") v6 = true := by decide
+example : ctxOK featF10 Γ6 = true ∧ valOKI true e0 Γ6 (s "Root") v6 = true :=
+  (fragments_collapse_F10 e0 Γ6 (s "Root") v6 (by decide)).1 ⟨featF6, by decide, by decide⟩
+example : ∃ evs t, generate e0 Γ6 {} v6 = .ok evs ∧ eventsTree (isDatatype Γ6) evs = .ok t ∧
+    parseRoot e0 Γ6 {} (s "Root") t = .ok (v6, 0) :=
+  have h := (fragments_collapse_F10 e0 Γ6 (s "Root") v6 (by decide)).1 ⟨featF6, by decide, by decide⟩
+  bind_generate_F10 e0 Γ6 {} {} (s "Root") v6 h.1 h.2
+
 /-! ### instances -/
 
 example : ∃ evs, generate e0 Γ10 {} v10 = .ok evs ∧
